@@ -59,6 +59,51 @@ def run(rep, tier):
     rep.traces += 2 * len(hists)
     rep.evaluations += steps
     rep.distinct += len(hists)
+    # 2b. the scratch arena as a state machine (Arena.tla): takes of boundary sizes from windows starting at any offset modulo 64,
+    #     from remainders and from regions taken earlier; every granted region is written in full inside guard-page windows
+    na = 1200 if quick else 12000
+    ga = common.tlc("Mem/Gen_Arena", workers=1, wd=wd, simulate=na, depth=10, seed=common.seed(), timeout=3600)
+    common.tlc_must(ga, "Gen_Arena")
+    if ga.invariant:
+        rep.violation("spec:Gen_Arena:" + str(ga.invariant), "a simulated arena history violates ArenaOK in the specification", {"tlc": ga.out[-3000:]})
+        return
+    ahists = [json.loads(json.loads(x)) for x in ga.printed("PROG")]
+    if len(ahists) < na // 2:
+        raise ToolError("Gen_Arena produced %d histories\n%s" % (len(ahists), ga.out[-1500:]))
+    for i, h in enumerate(ahists):
+        h["id"] = i + 1
+    rep.states += ga.generated
+    rep.transitions += ga.generated
+    ap = os.path.join(wd, "c17.arena.ndjson")
+    common.write_ndjson(ap, ahists)
+    asteps = 0
+    for mode in ("1", "2"):
+        ep = os.path.join(wd, "c17.arena.m%s.events.ndjson" % mode)
+        p = common.harness(["guardrun", "hist", ap, ep], env={"VERIF_GUARD": mode}, timeout=7200)
+        if p.returncode != 0:
+            raise ToolError("harness hist (arena) failed rc=%d\n%s" % (p.returncode, p.stdout[-3000:]))
+        ev = common.read_ndjson(ep)
+        for s in common.read_ndjson(ep + ".signals.ndjson"):
+            rep.violation("arena:signal mode=%s win=%s boff=%s" % (mode, s["desc"].get("win"), s["desc"].get("boff")), "an arena history faulted (signal %s) with guard mode %s" % (s["signal"], mode), {"history": s["desc"], "signal": s["signal"]})
+        t = common.tlc("Mem/ArenaTrace", env={"TRACE": ep}, workers=1, wd=wd, timeout=7200, xmx="4g")
+        common.tlc_must(t, "ArenaTrace")
+        v = t.printed("VERDICT")
+        if not t.ok or not v or t.distinct != len(ev) + 1:
+            raise ToolError("ArenaTrace did not complete:\n" + t.out[-3000:])
+        rep.states += t.distinct
+        rep.transitions += t.generated
+        for k, kind, step in json.loads(json.loads(v[0].split(", ", 1)[1])):
+            e = ev[k - 1]
+            s = e["hist"][step - 1] if 0 < step <= len(e["hist"]) else {}
+            o = e["outs"][step - 1] if 0 < step <= len(e["outs"]) else {}
+            key = "arena:%s status=%s canary=%s" % (s.get("kind"), o.get("status"), o.get("canary"))
+            rep.violation(key, "arena history rejected by ArenaTrace at step %d: take %s bytes (%s) from region %s" % (step, s.get("n"), s.get("kind"), s.get("src")),
+                          {"win": e["win"], "boff": e["boff"], "history": e["hist"][:step], "observed": e["outs"][:step], "be": e["be"], "guard": mode})
+        asteps += sum(len(e["outs"]) for e in ev)
+    rep.traces += 2 * len(ahists)
+    rep.evaluations += asteps
+    rep.distinct += len(ahists)
+    rep.extra["arena_histories"] = {"histories": len(ahists), "steps": asteps}
     # 3. the HAL corpora (every N from 1, odd limb counts, 1..3 columns, exact-size scratch) executed over guard-page windows
     halpipe.GUARD = "1"
     halpipe.SIGNALS.clear()
@@ -96,9 +141,9 @@ def run(rep, tier):
     rep.evaluations += (nhal + ncore) * 8
     rep.rule = ("MC_Layout: every history of alloc / set_size / read_from / reuse keeps LayoutOK and every nameable element inside the buffer (exhaustive, small domain). %d random histories "
                 "(TLC simulation of Layout.tla, depth 10) on real VecZnx views whose storage ends at (mode 1) or starts after (mode 2) an inaccessible page, 4 back-ends: LayoutTrace compares "
-                "outcome class and dimensions per step, LayoutOK on the reported dimensions, canaries, and a fault is a violation. The HAL corpora of C09/C07/C08/wide (N from 1, odd sizes, "
+                "outcome class and dimensions per step, LayoutOK on the reported dimensions, canaries, and a fault is a violation. %d scratch-arena histories (TLC simulation of Arena.tla: windows starting at any offset modulo 64, takes of boundary sizes -- including element counts whose byte size wraps -- from the window, remainders and earlier regions) on the real Scratch: ArenaTrace compares refused / granted, the granted region and the remainder per step. The HAL corpora of C09/C07/C08/wide (N from 1, odd sizes, "
                 "1..3 columns, exact-size scratch) and the key-switching / external-product corpora (exact-size scratch) re-run with every harness-provided operand, result and scratch window "
-                "ending at an inaccessible page (%d + %d events): any out-of-bounds read or write faults the child process, which is bisected to the descriptor; distinct = histories" % (len(hists), nhal, ncore))
+                "ending at an inaccessible page (%d + %d events): any out-of-bounds read or write faults the child process, which is bisected to the descriptor; distinct = histories" % (len(hists), len(ahists), nhal, ncore))
     rep.sample(hists[0])
     rep.assumptions += ["a window ends at the guard page only when its length is a multiple of 64 (alignment); otherwise up to 63 canary bytes lie in between: reads into them are not seen, writes are",
                         "buffers the library allocates itself (owned Vec<u8>, DeviceBuf) are not guard-page backed; misaligned and dangling accesses are not observed by this technique; no sanitizer is used",
